@@ -29,7 +29,8 @@ def seeded_table():
         if d.get('replay_kind') == 'unchecked-obligation':
             how = 'proof/tie broken, no failing input found'
         rows.append('| `%s` | %s | %s | %s | %s |' % (name, d['property'], needs.replace('|', '\\|'),
-                    'yes' if d.get('detected_by_check') else '**no**' + (' (%s)' % d['note'] if d.get('note') else ''),
+                    ('yes' + (' (missed at first; check strengthened)' if d.get('history') else '')) if d.get('detected_by_check')
+                    else '**no**' + (' (%s)' % d['note'] if d.get('note') else ''),
                     str(how).replace('|', '\\|')[:160]))
     return '\n'.join(rows) + '\n'
 
